@@ -171,6 +171,38 @@ func trxHashPathOK(fn *ssa.Function, vpath, p string) bool {
 	return false
 }
 
+// trxHashPathOKUp is trxHashPathOK that, inside an unexported helper which receives both the vertex and the
+// transaction, establishes the binding at every call site of the helper.
+func trxHashPathOKUp(w *World, fn *ssa.Function, vpath, p string, up int) bool {
+	if trxHashPathOK(fn, vpath, p) {
+		return true
+	}
+	if up <= 0 || fn.Parent() != nil || fn.Object() == nil || fn.Object().Exported() {
+		return false
+	}
+	callers := staticCallers(w, fn)
+	if len(callers) == 0 {
+		return false
+	}
+	for _, cs := range callers {
+		args := cs.Common().Args
+		tr := func(q string) string {
+			for k, prm := range fn.Params {
+				if k < len(args) {
+					if x, ok := substPrefix(q, prm.Name(), pathOf(args[k])); ok {
+						return x
+					}
+				}
+			}
+			return q
+		}
+		if !trxHashPathOKUp(w, cs.Parent(), tr(vpath), tr(p), up-1) {
+			return false
+		}
+	}
+	return true
+}
+
 // loopHeaderOf finds the rangeindex/rangechan loop header block that contains instruction-defining block b
 // in its natural loop; returns the header block whose comment starts with "range" and that reaches b and is reached from b.
 func enclosingRangeHeader(b *ssa.BasicBlock) *ssa.BasicBlock {
@@ -321,6 +353,33 @@ func (d dcall) path(v ssa.Value) string {
 		}
 	}
 	return p
+}
+
+// argValue follows v, when it is a parameter of the helper the deep call sits in, to the argument passed
+// for it (up the chain of call sites).
+func (d dcall) argValue(v ssa.Value) ssa.Value {
+	for i := len(d.chain) - 1; i >= 0; i-- {
+		prm, ok := strip(v).(*ssa.Parameter)
+		if !ok {
+			return v
+		}
+		cs := d.chain[i]
+		cal := cs.Common().StaticCallee()
+		if cal == nil {
+			return v
+		}
+		found := false
+		for k, p := range cal.Params {
+			if p == prm && k < len(cs.Common().Args) {
+				v = cs.Common().Args[k]
+				found = true
+			}
+		}
+		if !found {
+			return v
+		}
+	}
+	return v
 }
 
 // delegateFor: fn hands value p to a same-package helper; returns the helper, its parameter that
